@@ -4,6 +4,7 @@
   Every theorem quantifies over ALL row lists, pointers, offsets and operation histories.
 -/
 import Csvq.Lemmas.Cursor
+import Csvq.Gen.CursorLoop
 namespace Csvq.C16
 open Csvq Csvq.Cursor
 
@@ -306,6 +307,165 @@ theorem open_takes_snapshot {α} (s : Scope α) (n : String) (rows : List α)
       exact lookup_update_same _ _ _ (by simp [hl])
 
 
+/-! ## blocks; life-cycle statements inside a WHILE IN body -/
+
+/-- T-gen: WhileInCursor obtains NO cursor in front of its loop; inside the loop it clears the loop's
+    block and then fetches BY NAME through the child scope; FetchCursor → ReferenceScope.FetchCursor walks
+    the blocks innermost-first.  (This is what `loopS` / `stepS` assume.) -/
+theorem gen_while_in_looks_up_by_name :
+    Gen.CursorLoop.whileInPre = ["fetchPosition := parser.FetchPosition{Position: parser.Token{Token: parser.NEXT}}",
+      "childProc := proc.NewChildProcessor()", "defer childProc.Close()"]
+    ∧ Gen.CursorLoop.whileInLoop = ["childProc.ReferenceScope.ClearCurrentBlock()",
+      "make([]parser.VariableAssignment, len(stmt.Variables))", "len(stmt.Variables)",
+      "childProc.ReferenceScope.DeclareVariable(ctx, decl)",
+      "FetchCursor(ctx, childProc.ReferenceScope, stmt.Cursor, fetchPosition, stmt.Variables)",
+      "childProc.execute(ctx, stmt.Statements)"]
+    ∧ Gen.CursorLoop.whileInPost = ["return Terminate, nil"]
+    ∧ Gen.CursorLoop.fetchCursor = ["scope.FetchCursor(name, position, number)", "NewCursorFetchLengthError(name, len(primaries))"]
+    ∧ Gen.CursorLoop.scopeFetch = ["for i := range rs.Blocks", "rs.Blocks[i].Cursors.Fetch(name, position, number)",
+      "NewUndeclaredCursorError(name)"] := by
+  decide
+
+/-- with a single block the stack semantics is the flat one (all theorems above carry over) -/
+theorem stepS_single {α} (s : Scope α) (op : Op α) :
+    stepS [s] op = ([(step s op).1], (step s op).2) := by
+  simp only [stepS]
+  split
+  · rfl
+  · rename_i k hk
+    split
+    · rfl
+    · rename_i hl
+      have h1 := step_unknown s op k hk hl
+      have h2 := step_unknown ([] : Scope α) op k hk rfl
+      simp [h1, h2]
+
+
+/-- a statement acts on the innermost block that knows the name and leaves every other block alone -/
+theorem statement_acts_on_innermost_binding {α} (st : Stack α) (op : Op α) (k : String) (hk : op.chainKey = some k)
+    (c : CState α) (h : lookupS st k = some c) :
+    ∃ (pre : List (Scope α)) (b : Scope α) (post : List (Scope α)),
+      st = pre ++ b :: post ∧ (∀ b' ∈ pre, lookup b' k = none) ∧ lookup b k = some c ∧
+      stepS st op = (pre ++ (step b op).1 :: post, (step b op).2) :=
+  stepS_acts_on_innermost st op k hk c h
+
+/-- a name no block knows: every cursor statement is the "undeclared" error, nothing changes -/
+theorem undeclared_in_every_block {α} (st : Stack α) (op : Op α) (k : String) (hk : op.chainKey = some k)
+    (h : lookupS st k = none) : stepS st op = (st, .err .undeclared) :=
+  stepS_undeclared st op k hk h
+
+/-- a row handed out for a name is a row of the OPEN-time result of the cursor the name denotes NOW -/
+theorem fetch_row_from_current_binding {α} (st st' : Stack α) (n : String) (p : Pos) (r : α)
+    (h : stepS st (.fetch n p) = (st', .row r)) :
+    ∃ rows i f, lookupS st (key n) = some (.opened rows i f) ∧ r ∈ rows := by
+  cases hl : lookupS st (key n) with
+  | none =>
+    rw [stepS_undeclared st _ (key n) rfl hl] at h
+    simp at h
+  | some c =>
+    obtain ⟨pre, b, post, _, _, hb, hs⟩ := stepS_acts_on_innermost st (.fetch n p) (key n) rfl c hl
+    rw [hs] at h
+    cases c with
+    | closed =>
+      simp [step, hb, CState.fetch] at h
+    | opened rows i f =>
+      refine ⟨rows, i, f, rfl, ?_⟩
+      have := (step_result_from_view b (.fetch n p) rows i f n hb).1 p r rfl
+      apply this
+      simp only [Prod.mk.injEq] at h
+      exact h.2
+
+/-- DISPOSE removes the innermost cursor of that name; the name then denotes the next outer one -/
+theorem dispose_uncovers_outer {α} (b : Scope α) (rest : Stack α) (n : String) (c : CState α)
+    (hu : Uniq b) (h : lookup b (key n) = some c) :
+    stepS (b :: rest) (.dispose n) = (erase b (key n) :: rest, .ok) ∧
+    lookupS (erase b (key n) :: rest) (key n) = lookupS rest (key n) := by
+  constructor
+  · simp [stepS, Op.chainKey, h, step]
+  · simp [lookupS, erase_removes b (key n) hu]
+
+/-- one iteration of WHILE IN: clear the loop's block, FETCH NEXT **by name** on the stack the previous
+    iteration's body left behind; a row runs the body (an error there ends the program), anything else
+    (nothing fetched / error) ends the loop -/
+theorem loop_iteration {α} (fuel n : Nat) (name : String) (body : List (Item α)) (st : Stack α) :
+    loopS (fuel + 1) n name body st =
+      match stepS ([] :: st) (.fetch name .next) with
+      | (st1, .row r) =>
+        match runBody n st1 body with
+        | (st2, rs, true) => (st2.tail, .row r :: rs, true)
+        | (st2, rs, false) =>
+          ((loopS fuel (n + 1) name body st2.tail).1, .row r :: rs ++ (loopS fuel (n + 1) name body st2.tail).2.1,
+           (loopS fuel (n + 1) name body st2.tail).2.2)
+      | (st1, r) => (st1.tail, [r], true) := by
+  rw [loopS]
+  rfl
+
+/-- the body (or anything before) DISPOSEd the cursor and no outer block knows the name: the next
+    iteration is the "undeclared" error — never a row of the disposed cursor's old result -/
+theorem while_in_disposed_is_error {α} (fuel n : Nat) (name : String) (body : List (Item α)) (st : Stack α)
+    (h : lookupS st (key name) = none) :
+    loopS (fuel + 1) n name body st = (st, [.err .undeclared], true) := by
+  have := stepS_undeclared ([] :: st) (.fetch name .next) (key name) rfl (by rw [lookupS_push]; exact h)
+  simp [loopS, this]
+
+/-- the body CLOSEd the cursor (or a closed cursor of that name now shadows it): "closed" error -/
+theorem while_in_closed_is_error {α} (fuel n : Nat) (name : String) (body : List (Item α)) (st : Stack α)
+    (h : lookupS st (key name) = some .closed) :
+    loopS (fuel + 1) n name body st = (st, [.err .closed], true) := by
+  obtain ⟨pre, b, post, h1, _, h3, h4⟩ :=
+    stepS_acts_on_innermost ([] :: st) (.fetch name .next) (key name) rfl .closed (by rw [lookupS_push]; exact h)
+  have hb : step b (.fetch name .next) = (b, .err .closed) := by simp [step, h3, CState.fetch]
+  rw [hb, ← h1] at h4
+  simp [loopS, h4]
+
+/-- every row an iteration hands to the body comes from the OPEN-time result of the cursor the name
+    denotes AT THAT MOMENT (after DISPOSE of a shadowing cursor: the outer one) -/
+theorem while_in_row_from_current_binding {α} (fuel n : Nat) (name : String) (body : List (Item α)) (st : Stack α)
+    (r : α) (rest : List (Res α)) (h : (loopS (fuel + 1) n name body st).2.1 = .row r :: rest) :
+    ∃ rows i f, lookupS st (key name) = some (.opened rows i f) ∧ r ∈ rows := by
+  rw [loop_iteration] at h
+  split at h
+  · rename_i st1 r' hs
+    have := fetch_row_from_current_binding _ _ _ _ _ hs
+    rw [lookupS_push] at this
+    have hr : r' = r := by
+      split at h <;> simp at h <;> exact h.1
+    rw [← hr]; exact this
+  · rename_i st1 r' hne hs
+    simp only [List.cons.injEq] at h
+    exact absurd h.1 (hne r)
+
+/-- WHILE IN with a body that does not touch the cursor: every row after the pointer exactly once, in order -/
+theorem while_in_body_visits_all_once {α} (rows : List α) (hl : LenOK rows) (name : String) :
+    ∀ (fuel n : Nat) (s : Scope α) (i : Int) (f : Bool), lookup s (key name) = some (.opened rows i f) →
+      -1 ≤ i → i ≤ rows.length → rows.length + 2 ≤ fuel + (i + 1).toNat →
+      loopS fuel n name [] [s] =
+        ([update s (key name) (.opened rows rows.length true)],
+         (rows.drop (i + 1).toNat).map Res.row ++ [Res.none], true) := by
+  intro fuel
+  induction fuel with
+  | zero => intro n s i f h h0 h1 hf; omega
+  | succ fuel ih =>
+    intro n s i f h h0 h1 hf
+    have hstep : stepS ([] :: [s]) (.fetch name .next) =
+        ([] :: (stepS [s] (.fetch name .next)).1, (stepS [s] (.fetch name .next)).2) := by
+      simp [stepS, Op.chainKey, lookup]
+    rw [loop_iteration, hstep, stepS_single]
+    by_cases hlast : (rows.length : Int) ≤ i + 1
+    · have hd : rows.drop (i + 1).toNat = [] := by apply List.drop_eq_nil_of_le; omega
+      simp [step, h, fetch_next_none rows i f hl h0 h1 hlast, hd]
+    · have hlt : i + 1 < rows.length := by omega
+      have hget : rows[(i + 1).toNat]? = some (rows[(i + 1).toNat]'(by omega)) := by simp
+      have hdrop : rows.drop (i + 1).toNat = rows[(i + 1).toNat]'(by omega) :: rows.drop ((i + 1).toNat + 1) := by simp
+      have he : (i + 1 + 1).toNat = (i + 1).toNat + 1 := by omega
+      have hlk : lookup (update s (key name) (CState.opened rows (i + 1) true)) (key name)
+          = some (.opened rows (i + 1) true) := lookup_update_same _ _ _ (by simp [h])
+      have := ih (n + 1) _ (i + 1) true hlk (by omega) (by omega) (by omega)
+      simp only [step, h, fetch_next_some rows i f hl h0 hlt, hget, runBody, List.tail_cons]
+      rw [this, update_update, he]
+      conv => rhs; rw [hdrop]
+      simp only [List.map_cons, List.cons_append, List.nil_append]
+
 /-! ## non-vacuity: the hypotheses are satisfiable, the model does something -/
 
 /-- hypotheses of `fetch_spec` hold together, also for the offsets that used to wrap around -/
@@ -341,5 +501,27 @@ example : ∃ (s : Scope Nat) (ops : List (Op Nat)), lookup s "C" = some (.opene
     intro op h
     simp only [List.mem_cons, List.not_mem_nil, or_false] at h
     rcases h with rfl | rfl | rfl <;> simp [Op.discards], rfl⟩
+
+/-- seeded change C16-m4, scenario 1: the body disposes the iterated cursor in iteration 1 → the row of
+    iteration 1, `ok` for the DISPOSE, then "undeclared" -/
+example : (loopS 10 1 "cur" [.sub (some 1) [.dispose "cur"]] [[("CUR", .opened [1, 2, 3] (-1) false)]])
+    = ([[]], [.row 1, .ok, .err .undeclared], true) := rfl
+
+/-- scenario 2: the disposed cursor shadowed an outer open cursor of the same name → the loop goes on
+    over the OUTER cursor's rows -/
+example : (loopS 10 1 "cur" [.sub (some 1) [.dispose "cur"]]
+      [[("CUR", .opened [1, 2, 3] (-1) false)], [("CUR", .opened [10, 20] (-1) false)]]).2
+    = ([.row 1, .ok, .row 10, .row 20, .none], true) := rfl
+
+/-- CLOSE + re-OPEN inside the body restarts on the new result; a shadowing DECLARE in the body's block
+    hides the cursor from FETCH statements of the body only (the loop's block is cleared every iteration) -/
+example : (loopS 10 1 "c" [.sub (some 2) [.close "c", .open "c" [7, 8]], .act (.declare "c"), .act (.isOpen "c")]
+      [[("C", .opened [1, 2, 3] (-1) false)]]).2
+    = ([.row 1, .ok, .tern .F, .row 2, .ok, .ok, .ok, .tern .F, .row 7, .ok, .tern .F, .row 8, .ok, .tern .F, .none], true) := rfl
+
+/-- scenario 2 as the program is written: the loop stands in a block that declares the shadowing cursor -/
+example : (nestS 10 [.declare "cur", .open "cur" [1, 2, 3]] "cur" [.sub (some 1) [.dispose "cur"]] [.isOpen "cur"]
+      [[("CUR", .opened [10, 20] (-1) false)]]).2
+    = ([.ok, .ok, .row 1, .ok, .row 10, .row 20, .none, .tern .T], true) := rfl
 
 end Csvq.C16
